@@ -32,3 +32,244 @@ pub fn ref_frame(b: &[u8], hdr: usize) -> Frame {
     }
     Frame::Ok { len: l }
 }
+
+/// Index-based reader used by the reference decoders. Running out of input sets `short`
+/// (the structure is cut off), it never panics.
+#[derive(Clone, Copy)]
+pub struct Rd<'a> {
+    pub b: &'a [u8],
+    pub pos: usize,
+    pub short: bool,
+}
+
+impl<'a> Rd<'a> {
+    #[inline(always)]
+    pub fn new(b: &'a [u8]) -> Self {
+        Rd { b, pos: 0, short: false }
+    }
+    #[inline(always)]
+    pub fn left(&self) -> usize {
+        self.b.len() - self.pos
+    }
+    #[inline(always)]
+    pub fn u8(&mut self) -> u8 {
+        if self.short || self.left() < 1 {
+            self.short = true;
+            return 0;
+        }
+        let v = self.b[self.pos];
+        self.pos += 1;
+        v
+    }
+    #[inline(always)]
+    pub fn u16(&mut self) -> u16 {
+        if self.short || self.left() < 2 {
+            self.short = true;
+            return 0;
+        }
+        let v = be16(self.b, self.pos);
+        self.pos += 2;
+        v
+    }
+    #[inline(always)]
+    pub fn u24(&mut self) -> u32 {
+        if self.short || self.left() < 3 {
+            self.short = true;
+            return 0;
+        }
+        let v = be24(self.b, self.pos);
+        self.pos += 3;
+        v
+    }
+    #[inline(always)]
+    pub fn u32(&mut self) -> u32 {
+        if self.short || self.left() < 4 {
+            self.short = true;
+            return 0;
+        }
+        let v = be32(self.b, self.pos);
+        self.pos += 4;
+        v
+    }
+    #[inline(always)]
+    pub fn u64(&mut self) -> u64 {
+        if self.short || self.left() < 8 {
+            self.short = true;
+            return 0;
+        }
+        let v = ((be32(self.b, self.pos) as u64) << 32) | be32(self.b, self.pos + 4) as u64;
+        self.pos += 8;
+        v
+    }
+    /// `n` raw bytes: returns (offset, len).
+    #[inline(always)]
+    pub fn take(&mut self, n: usize) -> (usize, usize) {
+        if self.short || self.left() < n {
+            self.short = true;
+            return (0, 0);
+        }
+        let o = self.pos;
+        self.pos += n;
+        (o, n)
+    }
+    #[inline(always)]
+    pub fn lp8(&mut self) -> (usize, usize) {
+        let n = self.u8() as usize;
+        self.take(n)
+    }
+    #[inline(always)]
+    pub fn lp16(&mut self) -> (usize, usize) {
+        let n = self.u16() as usize;
+        self.take(n)
+    }
+    #[inline(always)]
+    pub fn lp24(&mut self) -> (usize, usize) {
+        let n = self.u24() as usize;
+        self.take(n)
+    }
+}
+
+/// A (offset,len) span of the input matches a returned slice by pointer identity.
+#[inline(always)]
+pub fn span_is(b: &[u8], s: &[u8], sp: (usize, usize)) -> bool {
+    is_sub(b, s, sp.0, sp.1)
+}
+
+// ------------------------------------------------------------------------------------------------
+// Three-valued verdicts (DESIGN.md section 3.2)
+
+#[derive(Clone, Copy, PartialEq, Eq, Debug)]
+pub enum V {
+    /// the bytes are the RFC encoding of a value: the parser must return exactly that value
+    Accept,
+    /// structurally invalid per the property's list: the parser must not return a value
+    Reject,
+    /// the property is silent here: only safety/locality are asserted
+    DontCare,
+}
+
+pub type Span = (usize, usize);
+
+/// ClientHello (TLS, and DTLS with cookie) per RFC 5246 7.4.1.2 / RFC 6347 4.2.1.
+pub struct ChRef {
+    pub v: V,
+    pub version: u16,
+    pub random: Span,
+    pub sid: Option<Span>,
+    pub cookie: Span,
+    pub ciphers: Span, // raw bytes of the cipher list (2 per suite)
+    pub comp: Span,
+    pub ext: Option<Span>,
+    pub end: usize, // offset after the last decoded field
+}
+
+pub fn ref_client_hello(b: &[u8], dtls: bool) -> ChRef {
+    let z = (0, 0);
+    let mut c = ChRef { v: V::Reject, version: 0, random: z, sid: None, cookie: z, ciphers: z, comp: z, ext: None, end: 0 };
+    let mut rd = Rd::new(b);
+    c.version = rd.u16();
+    c.random = rd.take(32);
+    let sidlen = rd.u8() as usize;
+    if rd.short || sidlen > 32 {
+        return c;
+    }
+    if sidlen > 0 {
+        c.sid = Some(rd.take(sidlen));
+    }
+    if dtls {
+        c.cookie = rd.lp8();
+    }
+    let cl = rd.u16() as usize;
+    if rd.short || cl % 2 == 1 || cl > rd.left() {
+        return c;
+    }
+    c.ciphers = rd.take(cl);
+    let col = rd.u8() as usize;
+    if rd.short || col > rd.left() {
+        return c;
+    }
+    c.comp = rd.take(col);
+    c.end = rd.pos;
+    // optional extension block
+    if rd.left() == 0 {
+        c.v = V::Accept;
+        return c;
+    }
+    if rd.left() >= 2 {
+        let el = be16(b, rd.pos) as usize;
+        if el <= rd.left() - 2 {
+            c.ext = Some((rd.pos + 2, el));
+            c.end = rd.pos + 2 + el;
+            // bytes after the extension block inside the body: property is silent
+            c.v = if c.end == b.len() { V::Accept } else { V::DontCare };
+            return c;
+        }
+    }
+    // extension-block length overruns the body / single trailing byte: lenient, property is silent
+    c.v = V::DontCare;
+    c
+}
+
+/// ServerHello, TLS <= 1.2 form (RFC 5246 7.4.1.3), `has_ext` false for SSLv3.
+pub struct ShRef {
+    pub v: V,
+    pub version: u16,
+    pub random: Span,
+    pub sid: Option<Span>,
+    pub cipher: u16,
+    pub comp: u8,
+    pub ext: Option<Span>,
+    pub end: usize,
+}
+
+pub fn ref_server_hello12(b: &[u8], has_ext: bool) -> ShRef {
+    let z = (0, 0);
+    let mut c = ShRef { v: V::Reject, version: 0, random: z, sid: None, cipher: 0, comp: 0, ext: None, end: 0 };
+    let mut rd = Rd::new(b);
+    c.version = rd.u16();
+    c.random = rd.take(32);
+    let sidlen = rd.u8() as usize;
+    if rd.short || sidlen > 32 {
+        return c;
+    }
+    if sidlen > 0 {
+        c.sid = Some(rd.take(sidlen));
+    }
+    c.cipher = rd.u16();
+    c.comp = rd.u8();
+    if rd.short {
+        return c;
+    }
+    c.end = rd.pos;
+    if rd.left() == 0 {
+        c.v = V::Accept;
+        return c;
+    }
+    if has_ext && rd.left() >= 2 {
+        let el = be16(b, rd.pos) as usize;
+        if el <= rd.left() - 2 {
+            c.ext = Some((rd.pos + 2, el));
+            c.end = rd.pos + 2 + el;
+            c.v = if c.end == b.len() { V::Accept } else { V::DontCare };
+            return c;
+        }
+    }
+    c.v = V::DontCare;
+    c
+}
+
+/// Optional trailing u16-length-prefixed block (extensions of draft-18 ServerHello / HelloRetryRequest).
+pub fn ref_opt_ext(b: &[u8], pos: usize) -> (V, Option<Span>, usize) {
+    let left = b.len() - pos;
+    if left == 0 {
+        return (V::Accept, None, pos);
+    }
+    if left >= 2 {
+        let el = be16(b, pos) as usize;
+        if el <= left - 2 {
+            let end = pos + 2 + el;
+            return (if end == b.len() { V::Accept } else { V::DontCare }, Some((pos + 2, el)), end);
+        }
+    }
+    (V::DontCare, None, pos)
+}
